@@ -78,7 +78,7 @@ def configs():
 
 
 def universe(spec):
-    names = ['my_field', 'other_one', 'al_x', 'alX', 'in_x', 'only_other', 'ren_x', 'renX', 'out_x', 'zz']
+    names = ['my_field', 'other_one', 'al_x', 'alX', 'in_x', 'only_other', 'ren_x', 'renX', 'out_x', 'zz', '\xb5m', '\u03bcm']
     for n in ('my_field', 'other_one'):
         for s in STY:
             names.append(classes_gen.style_name(n, s))
@@ -160,6 +160,8 @@ def run_config(pane, res, idx, spec, tier, only=None):
     sig_cfg = {k: sig_cfg[k] for k in ('in_format', 'class_naming', 'field_naming')}
     sig_cfg['allow_extra'] = opts['allow_extra']
     union_done = False
+    if only is None or only == -1:
+        run_reuse(pane, res, idx, spec, cls)
     for di, d in enumerate(data_for(spec, tier)):
         if only is not None and di != only:
             continue
@@ -232,6 +234,51 @@ def run_config(pane, res, idx, spec, tier, only=None):
             if out[0] == 'ok':
                 core.add_violation(res, {'kind': 'accepts_unresolvable_data', 'why': r[1], 'shape': shape[:4], **sig_cfg},
                                    f"{desc} returned {out[1]!r} but the reference table says: {r[1]}", cell, len(values.expr(d)))
+
+
+def run_reuse(pane, res, idx, spec, cls):
+    """ONE mapping object converted, edited in place by its owner, and converted again (and a fresh mapping with the same keys
+    after it): each conversion is judged by the reference table on the keys the mapping has at that moment."""
+    from pane.errors import ConvertError
+    if 'struct' not in spec['opts']['in_format']:
+        return
+    firm = classes_gen.input_names(spec['fields'][0], spec['opts'])[0]
+    firm2 = classes_gen.input_names(spec['fields'][-1], spec['opts'])[0]
+    if not firm or not firm2:
+        return
+    d = {firm[0]: 'v', firm2[0]: 4}
+    steps = [('as built', lambda: None), ('unknown key added', lambda: d.__setitem__('zz', 1)), ('unknown key removed', lambda: d.pop('zz')),
+             ('second name of the first field added', (lambda: d.__setitem__(firm[1], 'v')) if len(firm) > 1 else None),
+             ('... and removed', (lambda: d.pop(firm[1])) if len(firm) > 1 else None),
+             ('defaulted field removed', lambda: d.pop(firm2[0])), ('required field removed', lambda: d.pop(firm[0]))]
+    hist = []
+    for label, act in steps:
+        if act is None:
+            continue
+        act()
+        hist.append(label)
+        for which, datum in (('the same object', d), ('a fresh mapping with these keys', dict(d))):
+            r = refmodel.ref_spec(spec, dict(datum))
+            try:
+                out = ('ok', pane.from_data(datum, cls))
+            except ConvertError as e:
+                out = ('rej', e)
+            except Exception as e:  # noqa
+                out = ('raw', e)
+            res['evals'] += 1
+            res['transitions'] += 1
+            if r[0] == UNSPEC:
+                continue
+            res['validated'] += 1
+            res['nontrivial'].add(f"reuse|{label}|{which[:8]}|{r[0]}")
+            want = 'ok' if r[0] == OK else 'rej'
+            okv = out[0] == want and (want != 'ok' or all(values.typed_eq(getattr(out[1], n), w) for n, w in r[1].fields.items()))
+            if not okv:
+                core.add_violation(res, {'kind': 'reused_mapping_object', 'step': label, 'which': which[:8]},
+                                   f"class opts {spec['opts']}: one mapping object converted repeatedly while its owner edits it; after {hist}, "
+                                   f"from_data({datum!r}) [{which}] -> {out[0]} {core.srepr(out[1], 60)}; the reference table says {want}"
+                                   f"{' ' + str(r[1]) if want == 'rej' else ''}", {'idx': idx, 'di': -1, 'd': None, 'reuse': True}, 30 + len(hist))
+                return
 
 
 def run_shard(shard, tier):
